@@ -69,6 +69,28 @@ func genC02(c *Ctx) {
 			}
 		}
 	}
+	// (a') the same stream value materialised 2-3 times: the recipe of (a) must hold in EVERY materialisation (state kept
+	//      in the provider object across materialisations, e.g. a once-only guard, shows from the second run on)
+	for _, op := range []string{"cmap", "ccons", "buf", "nest"} {
+		for rep := 2; rep <= 3; rep++ {
+			for n := 1; n <= 3; n++ {
+				for park := 0; park <= n; park++ {
+					var ends []string
+					if op != "ccons" {
+						if park >= 1 {
+							ends = append(ends, " limit=1", " cf=1", " first=1")
+						}
+					} else if park >= 1 {
+						ends = append(ends, " mf=0")
+					}
+					ends = append(ends, " cancel=0", " cancel=1")
+					for _, e := range ends {
+						emit(park >= 1, fmt.Sprintf("%s c=%d n=%d size=3 sync=1 mg=0 park=%d%s rep=%d script=-", op, 1+n%2, n, park, e, rep))
+					}
+				}
+			}
+		}
+	}
 	// (b) gated callbacks, every wrapper, scripted in quiescent states (seeded random scripts)
 	nr := c.Pick(500, 6000)
 	ops := []string{"cmap", "cmap", "ccons", "buf", "nest", "pipe"}
